@@ -1,7 +1,7 @@
 """Sidecar contracts for gbeced/basana (nothing here is part of /repo)."""
 import importlib
 
-MODULES = ["registry", "core_values", "account", "token_bucket", "config", "fees", "liquidity", "orders", "containers", "loans", "order_mgr", "exchange", "dispatcher", "bars"]
+MODULES = ["registry", "core_values", "account", "token_bucket", "config", "fees", "liquidity", "orders", "containers", "loans", "order_mgr", "exchange", "dispatcher", "bars", "wire"]
 
 
 def load_all():
